@@ -505,6 +505,54 @@ fn reference_counts(tokenizer: &Tokenizer, s: &str, nl: usize, nr: usize) -> Res
     Ok(c)
 }
 
+fn short_lines(lines: &[String]) -> Vec<String> {
+    lines
+        .iter()
+        .map(|l| {
+            if l.chars().count() > 40 {
+                format!("{}... ({} characters)", l.chars().take(40).collect::<String>(), l.chars().count())
+            } else {
+                l.clone()
+            }
+        })
+        .collect()
+}
+
+/// The counter world of the enumeration step: 128 homographs of one character carry id 2, 32
+/// homographs of another carry id 1, a third word id 3.
+fn big_count_plan(seed: u64) -> Plan {
+    let mut plan = Plan::new("C13", seed, u64::MAX);
+    let mut lex = String::new();
+    for i in 0..128 {
+        lex.push_str(&format!("あ,2,2,{},A{i}\n", i % 7));
+    }
+    for i in 0..32 {
+        lex.push_str(&format!("い,1,1,{},I{i}\n", i % 5));
+    }
+    lex.push_str("う,3,3,0,U\n");
+    plan.set_file("lex.csv", lex);
+    plan.set_file("matrix.def", "4 4\n0 0 0\n");
+    plan.set_file("char.def", "DEFAULT 0 1 0\n");
+    plan.set_file("unk.def", "DEFAULT,0,0,100,*\n");
+    plan.set_param("conn", crate::world::CONN_MATRIX);
+    plan.set_param("opt", 0);
+    // id 2 takes part in 128*128*1024 (+ the edges from BOS and to EOS) evaluations per update of
+    // the first line: 257 updates pass 2^32; id 1 gets 32*32*1024 per update, 40 updates = 4.2e7,
+    // which is more than whatever is left of id 2's count after a 32-bit wrap-around (< 1.7e7)
+    plan.ops.push(Op::new("InitCounter"));
+    plan.ops.push(Op::new("Reset").s(&"あ".repeat(1025)));
+    plan.ops.push(Op::new("Tokenize"));
+    plan.ops.push(Op::new("UpdateBurst").n(&[257]));
+    plan.ops.push(Op::new("Reset").s(&"い".repeat(1025)));
+    plan.ops.push(Op::new("Tokenize"));
+    plan.ops.push(Op::new("UpdateBurst").n(&[40]));
+    plan.ops.push(Op::new("Reset").s("うう"));
+    plan.ops.push(Op::new("Tokenize"));
+    plan.ops.push(Op::new("UpdateCounts"));
+    plan.ops.push(Op::new("ComputeProbs"));
+    plan
+}
+
 fn expected_probs(counts: &[u64]) -> Vec<(usize, f64)> {
     let total: u64 = counts.iter().sum();
     let mut v: Vec<(usize, u64)> = counts.iter().cloned().enumerate().skip(1).collect();
@@ -649,6 +697,38 @@ impl Scenario for ReorderScenario {
                     ctx.state_changes += 1;
                     ctx.event(&op.brief(), "ok");
                 }
+                "UpdateBurst" => {
+                    // n further update calls for the current (tokenized) sentence: each adds the
+                    // sentence's evaluations once more, exactly like repeating the line n times
+                    let Some(s) = sentence.clone() else { continue };
+                    if !(inited && tokenized) || s.is_empty() {
+                        continue;
+                    }
+                    let n = op.num(0).clamp(0, 100_000) as u64;
+                    catch(|| {
+                        for _ in 0..n {
+                            worker.update_connid_counts();
+                        }
+                    })
+                    .map_err(|p| panic_violation("C13.update", &format!("update_connid_counts x{n} after a sentence of {} characters", s.chars().count()), &p))?;
+                    if !memo.contains_key(&s) {
+                        let c = reference_counts(&tokenizer, &s, nl, nr)?;
+                        memo.insert(s.clone(), c);
+                    }
+                    let c = &memo[&s];
+                    for (a, b) in reference.lid.iter_mut().zip(&c.lid) {
+                        *a += b * n;
+                    }
+                    for (a, b) in reference.rid.iter_mut().zip(&c.rid) {
+                        *a += b * n;
+                    }
+                    if reference.lid.iter().chain(reference.rid.iter()).any(|&x| x >= 1u64 << 32) {
+                        ctx.count("probe.count_of_2_pow_32_or_more");
+                    }
+                    first_update = false;
+                    ctx.state_changes += 1;
+                    ctx.event(&op.brief(), "ok");
+                }
                 "ComputeProbs" => {
                     if !inited {
                         continue;
@@ -673,13 +753,13 @@ impl Scenario for ReorderScenario {
                     if !same_probs(&lp, &el) {
                         return Err(Violation::new(
                             "C13.left_stats",
-                            format!("left-id statistics {lp:?} differ from the reference {el:?} (reference counts {:?}) after lines {lines:?}", reference.lid),
+                            format!("left-id statistics {lp:?} differ from the reference {el:?} (reference counts {:?}) after lines {:?}", reference.lid, short_lines(&lines)),
                         ));
                     }
                     if !same_probs(&rp, &er) {
                         return Err(Violation::new(
                             "C13.right_stats",
-                            format!("right-id statistics {rp:?} differ from the reference {er:?} (reference counts {:?}) after lines {lines:?}", reference.rid),
+                            format!("right-id statistics {rp:?} differ from the reference {er:?} (reference counts {:?}) after lines {:?}", reference.rid, short_lines(&lines)),
                         ));
                     }
                     if lines.is_empty() {
@@ -755,6 +835,26 @@ impl Scenario for ReorderScenario {
         Ok(())
     }
 
+    fn extra(&self, _tier: Tier, seed: u64, rep: &mut crate::runner::BatchReport) {
+        // one long history in which an id takes part in more than 2^32 evaluations (a counter
+        // narrower than 64 bits wraps there): about 4.3e9 counted pairs, a few seconds
+        let plan = big_count_plan(seed);
+        let mut ctx = Ctx::new(false);
+        match crate::core::run_plan(self, &plan, &mut ctx) {
+            Ok(()) => {
+                let hit = ctx.counters.get("probe.count_of_2_pow_32_or_more").copied().unwrap_or(0);
+                *rep.counters.entry("probe.count_of_2_pow_32_or_more".into()).or_insert(0) += hit;
+                rep.extra_evaluations += 1;
+                rep.extra_distinct += 1;
+                rep.extra.insert(
+                    "long_history".into(),
+                    crate::json::J::s("1 history with 257 + 40 + 1 counted lines of up to 1025 characters over 128 / 32 homographs: one id takes part in more than 2^32 connection-cost evaluations; order of the statistics compared with the reference counter"),
+                );
+            }
+            Err(v) => rep.extra_failure = Some((plan, v)),
+        }
+    }
+
     fn describe(&self) -> ScenarioInfo {
         ScenarioInfo {
             level: "exploration",
@@ -773,6 +873,7 @@ impl Scenario for ReorderScenario {
                 "probe.tied_counts",
                 "probe.zero_count_id",
                 "probe.reorder_output_mapped",
+                "probe.count_of_2_pow_32_or_more",
             ],
         }
     }
